@@ -217,6 +217,15 @@ func c13Gen(r *vfRand, i int, adv bool) *zz.In {
 	g := &zz.Gen{R: r, Adv: adv}
 	fk := zz.FilterKinds()
 	in := &zz.In{}
+	if adv && i%5 != 4 {
+		// systematic plan: leaf number (seed-rotated) of some kind driven to an extreme value
+		plan := zz.AdvPlan()
+		it := plan[(i+int(vfSeed()%1000)*131)%len(plan)]
+		in.Cat, in.Kind = it.Cat, it.Kind
+		in.Doc = g.GenAdvDoc(it)
+		in.Reqs = zz.DefaultReqs(g, in.Kind, in.Doc)
+		return in
+	}
 	switch sel := i % 10; {
 	case sel < 7:
 		in.Cat = "filter"
